@@ -184,6 +184,9 @@ class C06(Prop):
             out["seg_t"] = samples(sh.segments(transformed=True))
             P = Path(sh)
             out["path_abs"] = samples(abs(P))
+            import pathlib_ as _pl
+            from svgelements import Arc as _Arc
+            out["path_d_pred6"] = [[geo.kind(sg)] + (_pl.arc_pred6(sg, TS5) if isinstance(sg, _Arc) else geo.sample(sg, TS5)) for sg in abs(P)]
             dstr = sh.d()
             out["d"] = dstr
             Pd = Path(dstr)
@@ -288,7 +291,9 @@ class C06(Prop):
                             observed=obs[name], expected=spec_t)
                 if round_nonorth and name in ("seg_t", "path_d", "abs_shape"):
                     f["finding"] = FINDING
-                elif name == "path_d" and curved and self._cmp(obs[name], spec_t, 1e-3 * scale) is None:
+                elif name == "path_d" and curved and (self._cmp(obs[name], spec_t, 1e-3 * scale) is None or
+                                                      self._cmp(obs[name], obs["path_d_pred6"], 2e-5 * scale) is None):
+                    # the deviation is exactly what printing rx, ry, rotation with 6 digits predicts
                     f["finding"] = FINDING_G
                 fs.append(f)
         if not obs["eq_path"] and sd:
@@ -301,7 +306,10 @@ class C06(Prop):
                     f = Failure(what="bbox of %s differs from bbox of abs(Path(shape))" % nm, case=case, observed=b, expected=bp)
                     if round_nonorth:
                         f["finding"] = FINDING
-                    elif curved and nm.startswith("Path(shape.d") and b is not None and max(abs(x - y) for x, y in zip(bp, b)) <= 1e-3 * scale:
+                    elif curved and nm.startswith("Path(shape.d") and b is not None and (
+                            max(abs(x - y) for x, y in zip(bp, b)) <= 1e-3 * scale or
+                            self._cmp(obs["path_d"], obs["path_d_pred6"], 2e-5 * scale) is None and
+                            self._cmp(obs["path_d"], spec_t, 2e-5 * scale) is not None):
                         f["finding"] = FINDING_G
                     fs.append(f)
         if sd and abs(obs["len"][0] - obs["len"][1]) > 1e-3 * max(1.0, obs["len"][0]):
